@@ -138,6 +138,25 @@ CHECKS = {
         technique="Lean 4 proof by structural induction on type terms + exhaustive pairwise correspondence",
         ref="§5 C14",
     ),
+    "C15": dict(
+        text=("Proof (Lean 4) about DDP.Generics.unify, a transcription of ddptypes.UnifyGenericType (list peeling with the early break, "
+              "bind-or-lookup, one-level unification of the type arguments of a generic Kombination, the quirk that a bound parameter "
+              "is re-checked as a Kombination) and of the call-site test of alias.go (`fits`): Equal on type terms is equality (beq_refl, "
+              "eq_of_beq, by mutual structural recursion over the nested type), instantiations with equal type arguments are one type and "
+              "with different arguments different types (inst_equal_iff, inst_different_struct); a binding once made is never changed by "
+              "any later unification (unify_keeps, for all argument/parameter types); one type parameter bound to two different types "
+              "makes the call not fit (conflict_rejected, conflict_inst — the latter is the case that panicked before the repair); when "
+              "an argument fits a plain type parameter the binding afterwards IS the argument's type (fresh_binds, "
+              "fits_var_instantiates). Ties: (1) the real UnifyGenericType vs the model on thousands of generated argument/parameter "
+              "sequences with shared bindings; (2) random programs whose functions are made generic in a parameter type — generic "
+              "program, its textual specialisation and the L2 evaluator must agree, with the generic function in the same file and in "
+              "an imported module; (3) fixed programs for generic Kombinationen (identity of instantiations, ill-typed bindings "
+              "rejected). Two defects found and repaired."),
+        note=TB + "GetInstantiatedType / instantiation of function bodies is reached by the program correspondence only; generic "
+             "Kombinationen are not produced by the random generator.",
+        technique="Lean 4 proof about a transcription of the unifier + correspondence with the real unifier + generic-vs-specialisation differential programs",
+        ref="§5 C15",
+    ),
     "C16": dict(
         text=("Proof (Lean 4) over all permutations a Go map may be iterated in: any two sorted permutations of the same entries are equal "
               "when the comparator is asymmetric and total on the entries (sort_unique — covers map-order and sort instability at once); "
